@@ -188,26 +188,66 @@ theorem resume_label_prefix (s : MSt) (fd : Option Nat) :
     | none => exact ⟨_, rfl, rfl⟩
     | some d => exact ⟨_, List.take_take .., rfl⟩
 
-/-- RESUME label to a label enclosed by `d` FOR loops of the main module, from an error that
-happened anywhere below (any number of inner loops, any number of calls in progress, each call
-recorded above the label's loops: every mark exceeds `d`): the stack height is `d + 1` again and the
-frames of the `d` enclosing loops (and the module's own frame) are the ones that were there -/
+/-- what RESUME label leaves of the GOSUB stack: the GOSUBs of the main module -/
+def gosAfterLeave (s : MSt) : List Nat :=
+  match s.marks.getLast? with
+  | some (_, g) => keepOldest g s.gos
+  | none => s.gos
+
+/-- RESUME label to a label enclosed by `d` FOR loops, from an error that happened anywhere below (any
+number of inner loops, any number of calls in progress, each call recorded above the label's loops:
+every mark is at least `h + d`), where `h` is the height the innermost pending GOSUB of the main
+module found (`1` when none is pending: the module's own frame): the stack height is `h + d` again
+and those frames — the `h` frames of the code that issued the GOSUB, in particular the limit and
+step of a FOR whose body issued it (26672d3), and the frames of the `d` loops around the label —
+are the ones that were there -/
 theorem resume_label_keeps_enclosing_loops (s : MSt) (d : Nat)
-    (hlen : d + 1 ≤ s.st.length) (hmarks : ∀ m ∈ s.marks, d + 1 ≤ m.1) :
-    (stepM s (.leave (some d))).st = s.st.take (d + 1) ∧
-    (stepM s (.leave (some d))).st.length = d + 1 := by
-  have key : (stepM s (.leave (some d))).st = s.st.take (d + 1) := by
-    unfold stepM
+    (hlen : gosubBase (gosAfterLeave s) + d ≤ s.st.length)
+    (hmarks : ∀ m ∈ s.marks, gosubBase (gosAfterLeave s) + d ≤ m.1) :
+    (stepM s (.leave (some d))).st = s.st.take (gosubBase (gosAfterLeave s) + d) ∧
+    (stepM s (.leave (some d))).st.length = gosubBase (gosAfterLeave s) + d := by
+  have key : (stepM s (.leave (some d))).st = s.st.take (gosubBase (gosAfterLeave s) + d) := by
+    unfold stepM gosAfterLeave
     cases hm : s.marks.getLast? with
-    | none => simp only; rw [Nat.add_comm]
+    | none => simp only
     | some mg =>
       obtain ⟨m, g⟩ := mg
       simp only
-      have : d + 1 ≤ m := hmarks (m, g) (List.mem_of_getLast? hm)
-      rw [List.take_take, Nat.add_comm 1 d, Nat.min_eq_left this]
+      have : gosubBase (gosAfterLeave s) + d ≤ m := hmarks (m, g) (List.mem_of_getLast? hm)
+      simp only [gosAfterLeave, hm] at this
+      rw [List.take_take, Nat.min_eq_left this]
   refine ⟨key, ?_⟩
   rw [key, List.length_take]
   omega
+
+/-- the main-module case without a pending GOSUB (what 1a4d83d stated): the height is `d + 1` -/
+theorem resume_label_keeps_enclosing_loops_no_gosub (s : MSt) (d : Nat) (hg : s.gos = [])
+    (hlen : d + 1 ≤ s.st.length) (hmarks : ∀ m ∈ s.marks, d + 1 ≤ m.1) :
+    (stepM s (.leave (some d))).st = s.st.take (d + 1) ∧
+    (stepM s (.leave (some d))).st.length = d + 1 := by
+  have hb : gosubBase (gosAfterLeave s) = 1 := by
+    unfold gosAfterLeave
+    cases s.marks.getLast? with
+    | none => simp [hg, gosubBase]
+    | some mg => simp [hg, keepOldest, gosubBase]
+  have := resume_label_keeps_enclosing_loops s d (by rw [hb]; omega) (by rw [hb]; intro m hm; have := hmarks m hm; omega)
+  rw [hb, Nat.add_comm 1 d] at this
+  exact this
+
+/-- **RESUME label inside a GOSUB routine keeps the caller's frames** (26672d3).  A GOSUB found the
+height `h` (the caller may be inside any number of FOR bodies); the routine is at any height above;
+no call is in progress: RESUME label to a label of the routine enclosed by `d` of its FOR loops
+leaves `h + d` frames, the caller's `h` frames first and unchanged, and the GOSUB stays pending -/
+theorem resume_label_in_routine_keeps_caller_frames (s : MSt) (h d : Nat) (rest : List Nat)
+    (hg : s.gos = h :: rest) (hm : s.marks = []) (hlen : h + d ≤ s.st.length) :
+    let s' := stepM s (.leave (some d))
+    s'.st.length = h + d ∧ s'.st.take h = s.st.take h ∧ s'.gos = s.gos := by
+  have hb : gosubBase (gosAfterLeave s) = h := by simp [gosAfterLeave, hm, hg, gosubBase]
+  obtain ⟨k1, k2⟩ := resume_label_keeps_enclosing_loops s d (by rw [hb]; exact hlen) (by simp [hm])
+  rw [hb] at k1 k2
+  refine ⟨k2, ?_, ?_⟩
+  · rw [k1, List.take_take, Nat.min_eq_left (by omega)]
+  · simp [stepM, hm]
 
 /-- the defect repaired by 1a4d83d, on the model of the pinned behaviour (`fd = none`: no depth is
 known for the label): an error in the body of an inner FOR with RESUME label into the enclosing FOR's
@@ -216,8 +256,8 @@ the label's depth the enclosing loop's own frame is on top again -/
 example :
     let outer : Frame := ⟨0, 0, 2, 1⟩
     let inner : Frame := ⟨0, 0, 3, 2⟩
-    (stepM ⟨[Frame.fresh, outer, inner], [], []⟩ (.leave none)).st.getLast? = some inner ∧
-    (stepM ⟨[Frame.fresh, outer, inner], [], []⟩ (.leave (some 1))).st.getLast? = some outer := by
+    (stepM ⟨[Frame.fresh, outer, inner], [], [], 0⟩ (.leave none)).st.getLast? = some inner ∧
+    (stepM ⟨[Frame.fresh, outer, inner], [], [], 0⟩ (.leave (some 1))).st.getLast? = some outer := by
   decide
 
 /-- the hypotheses of `resume_label_keeps_enclosing_loops` are satisfiable: the error happened two
@@ -225,8 +265,20 @@ calls deep (marks 3 and 4, innermost first), the label sits in the body of the o
 example :
     let outer : Frame := ⟨0, 0, 2, 1⟩
     let inner : Frame := ⟨0, 0, 3, 2⟩
-    (stepM ⟨[Frame.fresh, outer, inner, Frame.fresh, Frame.fresh], [(4, 0), (3, 0)], []⟩
+    (stepM ⟨[Frame.fresh, outer, inner, Frame.fresh, Frame.fresh], [(4, 0), (3, 0)], [], 0⟩
       (.leave (some 1))).st = [Frame.fresh, outer] := by
+  decide
+
+/-- the defect repaired by 26672d3, on the model: `FOR I (limit 2) : GOSUB R : NEXT` with an error in `R` and
+`RESUME LR`, `LR` a label of `R` outside every loop: counted from the bottom (the pinned rule `1 + d`) the
+frame with I's limit is dropped, counted from the height the GOSUB found it is on top again when the RETURN
+comes back (the dispatch pushed the handler's frame, df9ea58) -/
+example :
+    let iLimit : Frame := ⟨0, 0, 2, 1⟩
+    let atResume : MSt := ⟨[iLimit, Frame.fresh, Frame.fresh], [], [2], 2⟩
+    atResume.st.take (1 + 0) = [iLimit] ∧
+    (stepM atResume (.leave (some 0))).st = [iLimit, Frame.fresh] ∧
+    (apply (stepM (stepM atResume (.leave (some 0))) .gret).st .pop).getLast? = some iLimit := by
   decide
 
 /-! ### GOSUB / RETURN (8f09b9b): a RETURN from inside the routine's loops leaves them -/
@@ -289,13 +341,58 @@ example :
     let atReturn : List Frame := [iLimit, jLimit, Frame.fresh]
     (apply atReturn .pop).dropLast.getLast? = some iLimit ∧          -- pinned: NEXT pops J's body frame only
     (apply atReturn .pop).getLast? = some jLimit ∧
-    (apply (stepM ⟨atReturn, [], [2]⟩ .gret).st .pop).getLast? = some iLimit := by
+    (apply (stepM ⟨atReturn, [], [2], 0⟩ .gret).st .pop).getLast? = some iLimit := by
   decide
 
 /-- the hypotheses of `return_restores_caller_frames` are satisfiable: the routine enters two FOR
 bodies and returns from the inner one -/
 example :
     StaysAbove 2 [Frame.fresh, Frame.fresh] [.write id, .push, .write id, .push, .write id] := by
+  simp [StaysAbove, apply]
+
+/-! ### the handler's own frames (dee4bd6, df9ea58) -/
+
+/-- **RESUME / RESUME NEXT restore the frames of the failing statement.**  An error is handed to the handler at a
+stack `st`; the handler pushes and pops frames of its own in any way (FOR loops entered, completed, left by GOTO;
+it never pops below its own frame) and writes whatever registers it likes; then RESUME or RESUME NEXT from wherever
+the handler is — inside any number of its FOR bodies: the stack is EXACTLY what it was when the statement failed,
+the top frame included (between the PopRegisters and the back jump of a NEXT the limit and the step of the loop
+live there: the handler's own FOR must not overwrite them) -/
+theorem resume_restores_failing_frames (s : MSt) (ops : List Op)
+    (hs : StaysAbove (s.st.length + 1) (s.st ++ [Frame.fresh]) ops) :
+    let s' := stepM (runM (stepM s .raise) (ops.map .op)) .resume
+    s'.st = s.st ∧ s'.gos = s.gos ∧ s'.marks = s.marks := by
+  have run : ∀ (ops : List Op) (t : MSt), runM t (ops.map .op) = { t with st := applyOps t.st ops } := by
+    intro ops
+    induction ops with
+    | nil => intro t; rfl
+    | cons o rest ih => intro t; simp only [List.map_cons, runM, List.foldl_cons]; exact ih _
+  obtain ⟨h1, h2⟩ := ops_keep_below ops (s.st ++ [Frame.fresh]) (by simp) hs
+  simp only [run, stepM]
+  refine ⟨?_, trivial, trivial⟩
+  have : (applyOps (s.st ++ [Frame.fresh]) ops).take s.st.length = (s.st ++ [Frame.fresh]).take s.st.length := by
+    simpa using h2
+  rw [this]; simp
+
+/-- the two defects on the model: `FOR I (limit 2)` whose body fails, a handler with `FOR J (limit 12) : RESUME`:
+without the recorded height the handler loop's frames stay and I's NEXT finds J's limit; and when I's NEXT itself
+fails (the frame with I's limit is on top), a handler that writes its registers changes it unless it has a frame of
+its own -/
+example :
+    let iLimit : Frame := ⟨0, 0, 2, 1⟩
+    let jLimit : Frame := ⟨0, 0, 12, 1⟩
+    let inBody : MSt := ⟨[iLimit, Frame.fresh], [], [], 0⟩
+    let handler : List MOp := [.op (.write fun _ => jLimit), .op .push]
+    (apply (runM inBody handler).st .pop).getLast? = some jLimit ∧                      -- pinned
+    (apply (stepM (runM (stepM inBody .raise) handler) .resume).st .pop).getLast? = some iLimit ∧
+    (runM ⟨[iLimit], [], [], 0⟩ handler).st.head? = some jLimit ∧                         -- pinned: NEXT failed
+    (stepM (runM (stepM ⟨[iLimit], [], [], 0⟩ .raise) handler) .resume).st = [iLimit] := by
+  decide
+
+/-- the hypotheses of `resume_restores_failing_frames` are satisfiable: the handler enters a FOR body and resumes
+from inside it -/
+example :
+    StaysAbove 3 ([Frame.fresh, Frame.fresh] ++ [Frame.fresh]) [.write id, .push, .write id] := by
   simp [StaysAbove, apply]
 
 end RbThm.C05
